@@ -66,7 +66,11 @@ Verdict ==
     c02_undone  |-> Obs.left = 0 /\ Obs.attrsAfter = [a \in Attrs |-> InitAttr(a)],
     c02_rerun   |-> Obs.run2 = [ran |-> Obs.ran, seen |-> Obs.seen, names |-> Ext.names,
                                 outcome |-> Ext.outcome, prop |-> Ext.prop],
-    c03_sound   |-> IF decor THEN Ext.outcome = "skip" ELSE Ext.outcome \in Allowed(raised),
+    \* every outcome the extended result received (not only the last one) must be an allowed one:
+    \* "reported as a success only if no stage raised" also when a second outcome follows
+    c03_sound   |-> /\ IF decor THEN Ext.outcome = "skip" ELSE Ext.outcome \in Allowed(raised)
+                    /\ \A k \in DOMAIN Ext.outs :
+                          IF decor THEN Ext.outs[k] = "skip" ELSE Ext.outs[k] \in Allowed(raised),
     c03_verdict |-> \A i \in DOMAIN Obs.flav : Obs.flav[i].ok # "na" =>
                         ((Obs.flav[i].ok = "true") <=> (Ext.outcome \notin Unsuccessful)),
     c05_details |-> decor \/
